@@ -641,12 +641,9 @@ func runCase(c Case) (*failure, *stats) {
 					}
 				}
 			}
-			for i := 1; i < len(bs); i++ {
-				if verdicts[i] != "ambiguous" && verdicts[0] != "ambiguous" && verdicts[i] != verdicts[0] {
-					return &failure{fmt.Sprintf("C09/backends-disagree/%s-vs-%s", bs[0].name, bs[i].name),
-						fmt.Sprintf("op %d lookup(%s): %s=%s %s=%s", oi, short(id), bs[0].name, verdicts[0], bs[i].name, verdicts[i])}, st
-				}
-			}
+			// Every backend is judged against the same model function of (history, measured time); a direct
+			// comparison of the verdicts would be unsound because the backends are visited at different instants.
+			_ = verdicts
 		case "remove":
 			id := c.IDs[op.ID].V()
 			for _, b := range bs {
